@@ -81,6 +81,19 @@ def coq_history(hist):
     return out
 
 
+# Fixed specifications added to the generated ones: a name that is both defined in the module and
+# imported (the own module wins in lookup_in_modules), a chain of IMPORTS, COMPONENTS OF of COMPONENTS OF.
+EXTRA_TEXTS = [
+    'A DEFINITIONS IMPLICIT TAGS ::= BEGIN IMPORTS T FROM B; T ::= CHOICE { a INTEGER, b BOOLEAN } '
+    'S ::= SEQUENCE { x [1] T, y [2] U } U ::= T END\n'
+    'B DEFINITIONS IMPLICIT TAGS ::= BEGIN T ::= INTEGER END\n',
+    'A DEFINITIONS AUTOMATIC TAGS ::= BEGIN IMPORTS T FROM B; S ::= SEQUENCE { x [0] T, COMPONENTS OF V } '
+    'V ::= SEQUENCE { COMPONENTS OF W, q BOOLEAN DEFAULT TRUE } W ::= SEQUENCE { p BIT STRING DEFAULT \'0110\'B, ... } END\n'
+    'B DEFINITIONS AUTOMATIC TAGS ::= BEGIN IMPORTS T FROM C; END\n'
+    'C DEFINITIONS AUTOMATIC TAGS ::= BEGIN T ::= CHOICE { a NULL } END\n',
+]
+
+
 def spec_case(ctx, so=None):
     rng = ctx.rng
     spec, g = G.gen_spec(rng, so)
@@ -242,6 +255,13 @@ def prepare(vg, spec, nvals, rng):
 
 def corr_and_pt(ctx, ncases):
     cases = []
+    for text in EXTRA_TEXTS:
+        d0 = asn1tools.parse_string(text)
+        hist = gen_history(ctx.rng)
+        states = run_history_impl(ctx, text, d0, hist, [], {}, {}, None)
+        cases.append(dict(text=text, before=X.ex_dict(d0), sorted=X.ex_dict(eval(pprint.pformat(d0))), hist=hist,
+                          states=states, pre=lib.attempt(base_compiler.pre_process, copy.deepcopy(d0)), spec=None))
+        ctx.case(('extra', text[:40]))
     for _ in range(ncases):
         spec, vg, text = spec_case(ctx)
         try:
